@@ -114,6 +114,33 @@ def isFrozen (black white : List String) (denom native : String) (blOn wlOn : Bo
 
 def frozen (c : Cfg) (d : String) : Bool := isFrozen c.black c.white d c.native c.blacklistOn c.whitelistOn
 
+/-! ## x/tokens/keeper/utils.go, freeze.go: edits of the freeze lists (ProposalTokensWhiteBlackChange) -/
+
+/-- `addTokens(origin, addings)`: append each token that is not in the list yet -/
+def addTokens (origin addings : List String) : List String :=
+  addings.foldl (fun o a => if o.contains a then o else o ++ [a]) origin
+
+/-- one round of `removeTokens`: the FIRST occurrence of `t` is overwritten with the last element, the last slot is cut -/
+def swapRemove : List String → String → List String
+  | [], _ => []
+  | x :: xs, t =>
+    if x = t then
+      match xs.getLast? with
+      | none => []
+      | some l => l :: xs.dropLast
+    else x :: swapRemove xs t
+
+/-- `removeTokens(origin, removings)` -/
+def removeTokens (origin removings : List String) : List String := removings.foldl swapRemove origin
+
+/-- `Apply` of the tokens module's white/black change proposal -/
+def editLists (c : Cfg) (isBlack isAdd : Bool) (toks : List String) : Cfg :=
+  match isBlack, isAdd with
+  | true, true => { c with black := addTokens c.black toks }
+  | true, false => { c with black := removeTokens c.black toks }
+  | false, true => { c with white := addTokens c.white toks }
+  | false, false => { c with white := removeTokens c.white toks }
+
 /-! ## ValidateFeeRangeDecorator -/
 
 /-- the fee-coin loop: per coin the foreign-fee switch, registration + FeePayments flag, freeze test, then
